@@ -115,9 +115,24 @@ Definition spec_by (sel : aidl -> diag -> bool) (expected : env -> aidl -> aidl 
 (* C05 *)
 Definition is_c05 (a : aidl) := labelled ["unknown type"]%string.
 Definition corr_C05 := corr_by is_c05 true.
+(* "the written name": a dotted identifier -- what the text says once white space and comments between the segments are gone *)
+Definition ident_char (c : N) : bool :=
+  (N.leb 48 c && N.leb c 57) || (N.leb 65 c && N.leb c 90) || (N.leb 97 c && N.leb c 122) || N.eqb c 95.
+Fixpoint dotted_b (s : str) (after_dot : bool) : bool :=
+  match s with
+  | [] => negb after_dot
+  | c :: r => if N.eqb c 46 then negb after_dot && dotted_b r true
+              else ident_char c && negb (after_dot && N.leb 48 c && N.leb c 57) && dotted_b r false
+  end.
+Definition names_dotted (a : aidl) : bool :=
+  dotted_b (pk_name (ai_package a)) true &&
+  forallb (fun t => match ty_kind t with KUnresolved => dotted_b (ty_name t) true | _ => true end) (all_types_pre (ai_item a)).
+
 Definition spec_C05 (c : list file_result * list file_result) : bool :=
   let defined := collect_item_keys (fst c) in
   for_files (fun a a' ds0 ds =>
+    (* the names resolution works on are the written names *)
+    names_dotted a &&
     (* the returned tree is the parse-stage tree re-kinded by the scoping rules (method oneway flags aside: C10) *)
     aidl_eqb (erase_oneway a') (erase_oneway (sp_tree defined a)) &&
     multiset_eqb diag_eqb (filter (is_c05 a') ds) (sp_unknown defined a)) c.
@@ -157,7 +172,10 @@ Definition is_c08 (a : aidl) :=
   labelled ["invalid parameter"; "unsupported array"; "invalid element"; "invalid map key"; "invalid map value";
             "non-generic list"; "non-generic map"]%string.
 Definition corr_C08 := corr_by is_c08 false.
-Definition spec_C08 := spec_by is_c08 (fun defined a a' => flat_map spec_container_ty (top_types (ai_item a'))).
+(* the element categories are those of the SPECIFIED resolution (the scoping rules applied to the parse-stage tree), not the ones
+   the implementation arrived at: "arrays may hold parcelables (defined, forward-declared or unknown imports)" is about what a
+   name denotes, so a reference mis-resolved to a built-in must not be excused *)
+Definition spec_C08 := spec_by is_c08 (fun defined a a' => sp_containers defined a).
 
 (* C10 *)
 Definition is_c10 (a : aidl) := labelled ["redundant oneway"; "must be void"]%string.
